@@ -108,7 +108,13 @@ impl Assembler {
         let mut buffers = old.into_sorted_vec();
         self.buffered = 0;
         let mut fragmented_buffered = 0;
-        let mut offset = 0;
+        // In ordered mode everything below `bytes_read` has already been delivered: stale chunks
+        // (which `read` only discards lazily) must not survive, in particular not into unordered
+        // mode where they would be delivered a second time.
+        let mut offset = match self.state {
+            State::Ordered => self.bytes_read,
+            State::Unordered { .. } => 0,
+        };
         for chunk in buffers.iter_mut().rev() {
             chunk.try_mark_defragment(offset);
             let size = chunk.bytes.len();
